@@ -227,7 +227,9 @@ class Group:
         """
         while self:
             vias: set[str] = set()
-            for gw in self:
+            # a gateway that was exited before still has to be waited for
+            # through the gateway it is proxied by: keep that one up as well
+            for gw in [*self, *self._gateways_to_join]:
                 if gw.spec.via:
                     vias.add(gw.spec.via)
             for gw in self:
